@@ -144,6 +144,18 @@ check("C06", "tool-sim + path monitor", "exploration",
       "Names are rewritten in place, so only the generated name lengths occur; unpacking runs as root on tmpfs.",
       "deterministic simulation: stored-byte fault injection + per-call confinement invariant + before/after snapshot", "DESIGN.md 5/C06")
 
+check("C10", "reader-sim", "exploration",
+      "One set of libsquashfs reader objects over an in-memory sqfs_file_t receives seeded histories of API calls (get inode by valid / "
+      "off-by-one / other-block / beyond-table reference, list directory, resolve path and inode number, positional reads straddling "
+      "block and fragment boundaries, get_block, get_fragment, stream read, xattr get_desc/seek/read_key/read_value/read_all, id lookup, "
+      "raw meta reader seek+read in and out of range, stream == read == blocks+fragment), with repeats, under transient read_at failures "
+      "at seeded call ordinals and one allocation failure, on valid (store / compressed, multi-metadata-block) and persistently damaged "
+      "images. Every call is compared with the same call on freshly created readers (memoised). Diverging histories are replayed in a "
+      "fresh process and delta-debugged to the classic 3-call shape. A valgrind memcheck pass over some histories catches answers that "
+      "depend on uninitialised memory.",
+      "The '.'/'..' feature of a DOT_ENTRIES reader is documented as history dependent and excluded; faults hit calls, not construction.",
+      "deterministic simulation: seeded API-history search with transient I/O / allocation faults vs fresh-reader reference model", "DESIGN.md 5/C10")
+
 PENDING = ["C01","C02","C03","C04","C05","C06","C07","C08","C10","C11","C12","C13","C14","C15","C19"]
 NA_REASONS = {
  "C16": "pure relation between two text transducers (describe printer, pack-file tokenizer); no schedule, clock, fault, crash point or history in the statement - deciding it is input enumeration, which deterministic simulation does not do (DESIGN.md section 0)",
@@ -168,6 +180,7 @@ def main():
         },
         "engines": [
             {"name": "tool-sim", "path": "simos/ + py/pipelines.py", "serves_properties": ["C01", "C02", "C03", "C04", "C05", "C06", "C07", "C08", "C15", "C11", "C12", "C13", "C14"], "kind_free_text": "each tool's real sources linked with simos under --wrap; one process per simulated run"},
+            {"name": "reader-sim", "path": "scn/reader.c", "serves_properties": ["C10"], "kind_free_text": "libsquashfs readers over an in-memory file with fault hooks; thousands of API histories per second in one process"},
             {"name": "pool-sim", "path": "scn/pool.c", "serves_properties": ["C09"], "kind_free_text": "real threadpool.c under the simos scheduler, many runs per process"},
         ],
         "checks": [CHECKS[k] for k in sorted(CHECKS)],
